@@ -93,6 +93,26 @@ CLAIMED['C10'] = dict(
     note=NOTE_COMMON + 'memory-sync walk and wirevector_by_name consistency are modelled only as far as the generators reach.',
     technique='Lean 4 proof over translator-regenerated sanity rules + fault enumeration as correspondence')
 
+CLAIMED['C05'] = dict(
+    text='PARTIAL. Lean theorems (Model/Verilog/Sem.lean = IEEE 1364-2001 expression-width, continuous and non-blocking '
+         'assignment semantics of the emitted subset; Model/Verilog/Emit.lean = model of the emitter): for EVERY '
+         'exportable combinational net (all primitives but nand), all operand and destination widths and all in-range '
+         'values, the assignment the exporter emits stores exactly Spec.comb (emit_assign_eq_spec; per-op lemmas incl. '
+         '`-` in a wider context, `~` truncated, mux arm order, select reversal and scalar selects, concat of any '
+         'arity); memory read ports, unsized constants, the register block in its reset flavours and memory write ports '
+         'at statement level. Correspondence per run: the text written by output_to_verilog is parsed by a strict '
+         'recogniser (anything outside the subset is an error) and must equal the emit model as an AST. Oracle per run: '
+         'the parsed module is executed by the Lean evaluator against pyrtl.Simulation cycle by cycle for each add_reset, '
+         'incl. a rst pulse; testbenches from traces of all three simulators are parsed: inputs = trace, initial '
+         'registers/memory words = the state that simulator started from, ROMs untouched, and module+testbench reproduce '
+         'the traced Outputs. The module-level statement (whole module run = Spec.run) is checked by that execution only, '
+         'not proved; unsized literals are taken at their mathematical value; async reset is observed at clock edges.',
+    design='4 C05',
+    note=NOTE_COMMON + 'Model/Verilog/Sem.lean is a hand transcription of the standard (trusted). tools/vlib/vparse.py '
+         '(recogniser) is trusted to parse the subset faithfully.',
+    technique='Lean 4 proof (per-net Verilog-semantics = netlist-semantics, all widths) + emitter-model AST correspondence '
+              '+ execution of the emitted text in the Lean Verilog evaluator against pyrtl.Simulation')
+
 CLAIMED['C06'] = dict(
     text='Lean theorems over impl models that compose the primitive nets as wire.py/corecircuits.py do: zero extension '
          'keeps the value; + exact at max+1; - wraps modulo 2^(max+1); * exact at the matched widths; unsigned '
